@@ -118,7 +118,7 @@ for op, lay in QUICK_SLICE:
     for step in (None, 2, -1, -2):
         _add(mk_colslice(op, 2, lay, step, timeout=150))
 for op in ('mask', 'assign', 'drop'):
-    for lay in layouts.compositions(4):
+    for lay in layouts.compositions(4)[::3]:
         for step in (None, 1, 2, 3, 4, -1, -2, -3, -4):
             c = mk_colslice(op, 3, lay, step, tier='thorough', timeout=600)
             if c.name not in CONDS:
